@@ -45,6 +45,13 @@ type Case struct {
 	// with this trust configuration when it validated a genuine logout response (Warm), then reconfigured to
 	// Trust.  Noise: SP options that concern only what it sends (spkit.Noise).
 	DelayH int    `json:"delay_h,omitempty"`
+	// At (request-post / request-get entries): the URL the request is delivered at: "" = the SP's logout URL |
+	// other (another SP's URL; Destination class "at" then names exactly that URL) | query (logout URL + query)
+	At string `json:"at,omitempty"`
+	// Repeat / PadKB: the very same message (padded by a comment of PadKB KiB, which is outside the canonical form) is
+	// validated Repeat more times on the same SP value in the same process; every validation must give the same verdict
+	Repeat int `json:"repeat,omitempty"`
+	PadKB  int `json:"pad_kb,omitempty"`
 	Warm   bool   `json:"warm,omitempty"`
 	Prior  string `json:"prior,omitempty"`
 	// InPlace: the reconfiguration overwrites the EntityDescriptor the SP points to instead of replacing the pointer
@@ -61,6 +68,12 @@ func value(f Field, correct string) *string {
 		return forge.S(correct)
 	case "wrong":
 		return forge.S("https://other.example.org/x")
+	case "at":
+		// the URL the message is delivered at when that is not the logout URL (see Case.At); never the correct value
+		if curAt != "" && curAt != correct {
+			return forge.S(curAt)
+		}
+		return forge.S("https://other.example.org/delivered-here")
 	case "near":
 		if v, ok := xgen.NearMiss(correct)[f.Kind]; ok {
 			return forge.S(v)
@@ -72,6 +85,19 @@ func value(f Field, correct string) *string {
 	return nil
 }
 
+// curAt: delivery URL of the case being judged ("" = the logout URL); set in check.
+var curAt string
+
+func deliveredAt(c Case) string {
+	switch c.At {
+	case "other":
+		return "https://other-sp.example.net/saml/slo"
+	case "query":
+		return spkit.SPSLO + "?tenant=x"
+	}
+	return spkit.SPSLO
+}
+
 var statuses = map[string][]string{
 	"success":        {forge.StatusOK},
 	"requester":      {"urn:oasis:names:tc:SAML:2.0:status:Requester"},
@@ -79,7 +105,20 @@ var statuses = map[string][]string{
 	"nested-success": {"urn:oasis:names:tc:SAML:2.0:status:Responder", forge.StatusOK},
 	"empty":          {""},
 	"absent":         {},
+	// further top-level values that are not Success
+	"responder":       {"urn:oasis:names:tc:SAML:2.0:status:Responder"},
+	"versionmismatch": {"urn:oasis:names:tc:SAML:2.0:status:VersionMismatch"},
+	"partial-top":     {"urn:oasis:names:tc:SAML:2.0:status:PartialLogout"},
+	"requestdenied":   {"urn:oasis:names:tc:SAML:2.0:status:RequestDenied"},
+	"authnfailed":     {"urn:oasis:names:tc:SAML:2.0:status:AuthnFailed"},
+	"lower-success":   {"urn:oasis:names:tc:saml:2.0:status:success"},
+	"near-success":    {forge.StatusOK + " "},
+	"prefixed":        {"samlp:Success"},
+	"bare-success":    {"Success"},
+	"garbage":         {"urn:example:whatever"},
 }
+
+var statusNames = []string{"success", "requester", "partial", "nested-success", "empty", "absent", "responder", "versionmismatch", "partial-top", "requestdenied", "authnfailed", "lower-success", "near-success", "prefixed", "bare-success", "garbage"}
 
 var delay = time.Hour // saml.MaxIssueDelay of the case being judged (set in check)
 
@@ -267,6 +306,10 @@ func setOrRemove(el *etree.Element, name string, v *string) {
 }
 
 func check(c Case) pbt.Result {
+	curAt = ""
+	if c.Entry == "request-post" || c.Entry == "request-get" {
+		curAt = deliveredAt(c)
+	}
 	delay = time.Hour
 	if c.DelayH > 0 && c.DelayH <= 96 {
 		delay = time.Duration(c.DelayH) * time.Hour
@@ -301,6 +344,13 @@ func check(c Case) pbt.Result {
 		spkit.Retrust(sp, c.Trust, c.InPlace)
 	}
 
+	if c.PadKB > 0 && c.PadKB <= 4096 && c.Root == "logout" {
+		if i := bytes.LastIndex(doc, []byte("</")); i > 0 {
+			pad := append([]byte("<!--"), bytes.Repeat([]byte("A"), c.PadKB<<10)...)
+			pad = append(pad, []byte("-->")...)
+			doc = append(append(append([]byte{}, doc[:i]...), pad...), doc[i:]...)
+		}
+	}
 	var payload string
 	redirect := c.Entry == "redirect" || c.Entry == "request-get"
 	switch {
@@ -315,21 +365,39 @@ func check(c Case) pbt.Result {
 	default:
 		payload = base64.StdEncoding.EncodeToString(doc)
 	}
-	var o outcome
-	switch c.Entry {
-	case "form":
-		o = call(func() error { return sp.ValidateLogoutResponseForm(payload) })
-	case "redirect":
-		o = call(func() error { return sp.ValidateLogoutResponseRedirect(payload) })
-	case "request-post":
-		form := url.Values{"SAMLResponse": {payload}, "RelayState": {"rs"}}
-		req, _ := http.NewRequest("POST", spkit.SPSLO, strings.NewReader(form.Encode()))
-		req.Header.Set("Content-Type", "application/x-www-form-urlencoded")
-		o = call(func() error { return sp.ValidateLogoutResponseRequest(req) })
-	default:
-		q := url.Values{"SAMLResponse": {payload}, "RelayState": {"rs"}}
-		req, _ := http.NewRequest("GET", spkit.SPSLO+"?"+q.Encode(), nil)
-		o = call(func() error { return sp.ValidateLogoutResponseRequest(req) })
+	at := spkit.SPSLO
+	if curAt != "" {
+		at = curAt
+	}
+	present := func() outcome {
+		switch c.Entry {
+		case "form":
+			return call(func() error { return sp.ValidateLogoutResponseForm(payload) })
+		case "redirect":
+			return call(func() error { return sp.ValidateLogoutResponseRedirect(payload) })
+		case "request-post":
+			form := url.Values{"SAMLResponse": {payload}, "RelayState": {"rs"}}
+			req, _ := http.NewRequest("POST", at, strings.NewReader(form.Encode()))
+			req.Header.Set("Content-Type", "application/x-www-form-urlencoded")
+			return call(func() error { return sp.ValidateLogoutResponseRequest(req) })
+		default:
+			q := url.Values{"SAMLResponse": {payload}, "RelayState": {"rs"}}
+			sep := "?"
+			if strings.Contains(at, "?") {
+				sep = "&"
+			}
+			req, _ := http.NewRequest("GET", at+sep+q.Encode(), nil)
+			return call(func() error { return sp.ValidateLogoutResponseRequest(req) })
+		}
+	}
+	o := present()
+	repeatNote := ""
+	for k := 1; k <= c.Repeat && k <= 12; k++ {
+		ok := present()
+		if ok.panic != "" || (ok.err == nil) != (o.err == nil) {
+			repeatNote = fmt.Sprintf("the very same message got another verdict on presentation %d of %d to the same SP: first err=%v, now err=%v panic=%q", k+1, c.Repeat+1, o.err, ok.err, ok.panic)
+			break
+		}
 	}
 
 	trusted := false
@@ -361,6 +429,19 @@ func check(c Case) pbt.Result {
 	desc := fmt.Sprintf("genuine-signature=%v trusted-signer=%v dest=%s issuer=%s status=%s age=%s; result: err=%v", genuine, trusted, c.Dest.Class, c.Issuer.Class, c.Status, c.Age, o.err)
 	if o.panic != "" {
 		res.Err = "panic: " + o.panic
+		return res
+	}
+	if c.Repeat > 0 {
+		res.Classes = append(res.Classes, "repeated-presentation")
+	}
+	if c.PadKB > 0 {
+		res.Classes = append(res.Classes, "padded-by-a-comment")
+	}
+	if curAt != "" && curAt != spkit.SPSLO {
+		res.Classes = append(res.Classes, "delivered-at:"+c.At)
+	}
+	if repeatNote != "" {
+		res.Err = repeatNote
 		return res
 	}
 	switch {
@@ -399,6 +480,16 @@ func genField(t *rapid.T, label string) Field {
 func gen(t *rapid.T) Case {
 	c := gen0(t)
 	c.DelayH = rapid.SampledFrom([]int{0, 0, 6, 48}).Draw(t, "delayh")
+	if c.Entry == "request-post" || c.Entry == "request-get" {
+		c.At = rapid.SampledFrom([]string{"", "", "other", "query"}).Draw(t, "at")
+		if c.At != "" && rapid.Bool().Draw(t, "destat") {
+			c.Dest = Field{Class: "at"}
+		}
+	}
+	if rapid.IntRange(0, 5).Draw(t, "repeat?") == 0 {
+		c.Repeat = rapid.IntRange(1, 3).Draw(t, "repeat")
+		c.PadKB = rapid.SampledFrom([]int{0, 1, 64}).Draw(t, "padkb")
+	}
 	c.Warm = rapid.IntRange(0, 3).Draw(t, "warm") == 0
 	if rapid.IntRange(0, 3).Draw(t, "reconfigured") == 0 {
 		c.Prior = rapid.SampledFrom(spkit.Trusts).Draw(t, "prior")
@@ -421,7 +512,7 @@ func gen0(t *rapid.T) Case {
 		Transform: rapid.SampledFrom(transforms).Draw(t, "transform"),
 		Dest:      genField(t, "dest"),
 		Issuer:    genField(t, "issuer"),
-		Status:    rapid.SampledFrom([]string{"success", "success", "success", "success", "requester", "partial", "nested-success", "empty", "absent"}).Draw(t, "status"),
+		Status:    rapid.SampledFrom(append([]string{"success", "success", "success", "success", "success", "success", "success"}, statusNames...)).Draw(t, "status"),
 		Age:       rapid.SampledFrom([]string{"fresh", "fresh", "half", "stale", "old", "future"}).Draw(t, "age"),
 		Root:      rapid.SampledFrom(roots).Draw(t, "root"),
 	}
@@ -449,6 +540,22 @@ func enumReconfigured(_ string, emit func(Case)) {
 			for _, entry := range []string{"form", "redirect", "request-post", "request-get"} {
 				emit(Case{Entry: entry, Trust: "meta1", Signer: "idp", Transform: "none", Dest: ok, Issuer: iss, IssuerFormat: f, Status: "success", Age: "fresh", Root: "logout"})
 			}
+		}
+	}
+	// delivered at another URL through the request entry points: Destination names the logout URL / exactly the
+	// delivery URL / something else
+	for _, at := range []string{"other", "query"} {
+		for _, entry := range []string{"request-post", "request-get"} {
+			for _, d := range []Field{ok, {Class: "at"}, {Class: "wrong"}, {Class: "absent"}} {
+				emit(Case{Entry: entry, At: at, Trust: "meta1", Signer: "idp", Transform: "none", Dest: d, Issuer: ok, Status: "success", Age: "fresh", Root: "logout"})
+			}
+		}
+	}
+	// the same valid message, padded to 1 / 3 MiB, validated 6 times by one SP in each encoding (inflated volume
+	// 6-18 MiB in one process: the 10 MB bound is per message)
+	for _, entry := range []string{"form", "redirect", "request-post", "request-get"} {
+		for _, kb := range []int{1024, 3072} {
+			emit(Case{Entry: entry, Trust: "meta1", Signer: "idp", Transform: "none", Dest: ok, Issuer: ok, Status: "success", Age: "fresh", Root: "logout", Repeat: 5, PadKB: kb})
 		}
 	}
 	for _, h := range []int{6, 48} {
@@ -495,7 +602,7 @@ func enumSingleFault(_ string, emit func(Case)) {
 			for st := range statuses {
 				_ = st
 			}
-			for _, st := range []string{"requester", "partial", "nested-success", "empty", "absent"} {
+			for _, st := range statusNames[1:] {
 				c := base
 				c.Status = st
 				emit(c)
@@ -517,7 +624,7 @@ func enumSingleFault(_ string, emit func(Case)) {
 var prop = &pbt.Prop[Case]{
 	ID: "C18",
 	Rule: "cases: LogoutResponse documents built by the harness and presented through ValidateLogoutResponseForm / Redirect / Request(GET, POST): signer in {trusted, second trusted, encryption-only IdP key, untrusted, nobody} x trust configuration x transformation after signing " +
-		"(signature moved into Status / Extensions, wrapped in an evil root with the signature copied, one field edited after signing, re-signed by the untrusted key with the trusted certificate in KeyInfo (alone, or in a two-certificate chain in either order), stripped, duplicated) x Destination, Issuer in {correct, wrong, near-miss, empty, absent} (Issuer with any Format attribute) x Status x IssueInstant age {0, 1/2, 3/2, 10} x MaxIssueDelay in {1 h, 6 h, 48 h} and future-dated, on an SP value that may have validated a genuine logout response before - under another trust configuration (all ordered pairs enumerated) - and with unrelated SP options set, " +
+		"(signature moved into Status / Extensions, wrapped in an evil root with the signature copied, one field edited after signing, re-signed by the untrusted key with the trusted certificate in KeyInfo (alone, or in a two-certificate chain in either order), stripped, duplicated) x Destination, Issuer in {correct, wrong, near-miss, empty, absent} (Issuer with any Format attribute) x Status (16 top-level / nested values) x delivery URL of the request entry points {logout URL, another SP's URL, logout URL + query; Destination may name exactly the delivery URL} x repeated presentation of the very same message (optionally padded to 3 MiB by a comment) to one SP x IssueInstant age {0, 1/2, 3/2, 10} x MaxIssueDelay in {1 h, 6 h, 48 h} and future-dated, on an SP value that may have validated a genuine logout response before - under another trust configuration (all ordered pairs enumerated) - and with unrelated SP options set, " +
 		"plus malformed framings (rootless, empty, text, truncated XML, bad base64, bad deflate, 11 MiB deflate bomb, SOAP envelope, a genuinely signed Response or Assertion presented as a logout response). " +
 		"exhaustive single-fault grid over every entry point and trust configuration plus rapid full combinations. oracle: nil error iff untouched trusted enveloped signature on the root, Destination = SLO URL, Issuer = IdP entity ID, fresh, Success; never a panic. " +
 		"non-trivial: the document carries a signature that verifies under some key and differs from the accepted baseline, or is malformed. distinct: sha256 of the JSON case.",
